@@ -20,6 +20,21 @@ CHECKS = {
                 text='Every vector kind (dense, blocked, tuple, power), size and aliasing pattern in the bound is executed symbolically; z3 decides over all real values that each result component equals the element-wise definition on the flattened data; min/max via inequalities + attainment for every ordering.',
                 note='Trusted: SymReal instantiation, DAG printer, z3 5.1.0. Real arithmetic (no rounding, no overflow); min/max only on non-empty vectors; sqrt as algebraic unknown. Outside: sparse vectors, lengths beyond the bound.',
                 ref='3/C04'),
+    'C06': dict(cat='model_checking', engine='E2',
+                technique='bounded symbolic execution of the real filter classes over a symbolic real scalar; z3 (NRA) decides constraint, complement-untouched and idempotence identities',
+                text='Every index-set configuration (insertion orders included) in the bound is executed symbolically on the real UnitFilter/UnitFilterBlocked/SlipFilter/MeanFilter/FilterChain/FilterSequence/TupleFilter classes; z3 decides over all real vectors, prescribed values, normals and weights that constraints hold exactly, unconstrained entries are unchanged, second application is the identity, filtered matrix rows are unit rows.',
+                note='Trusted: SymReal instantiation, DAG printer, z3 5.1.0. Real arithmetic; non-zero normals, positive mean-filter weights; ignore_nans off. Outside: global (MPI) filters, rounding.',
+                ref='3/C06'),
+    'C08': dict(cat='model_checking', engine='E2',
+                technique='bounded symbolic execution of the real preconditioner objects over a symbolic real scalar; z3 (NRA) decides multiply-back identities against textbook operators and an independent dense ILU(p)',
+                text='For every square pattern with diagonal (n<=3), fill level and omega, the factory-built Jacobi/SOR/SSOR/ILU(p)/polynomial/scale/diagonal preconditioners are executed symbolically; z3 decides the defining operator identity over all real matrix values and inputs, input immutability, filter-last, and freshness after init_numeric.',
+                note='Trusted: SymReal instantiation, DAG printer, z3 5.1.0, dense ILU(p) oracle. Real arithmetic, non-zero pivots. Dense 3x3 ILU queries may be inconclusive in quick tier (reported). Outside: BCSR variants, Schwarz/Uzawa/Vanka, rounding.',
+                ref='3/C08'),
+    'C09': dict(cat='model_checking', engine='E2',
+                technique='bounded symbolic execution of the real MultiGrid code with symbolic non-commuting 2x2 mock operands; result term == textbook recursion term (DAG identity or z3), event log == reference',
+                text='For every discrete configuration in the bound (levels, cycle, smoother presence, coarse solver, adaptive CGC, sub-range, repeated apply) the real MultiGrid::apply is executed on symbolic operands; its result must equal the independent recursive V/F/W definition as a function of all operator entries and the defect, and the operator-application order must equal the reference log.',
+                note='Trusted: SymReal, DAG hash-consing, z3 5.1.0, hand-written recursion oracle. Mock operands (template is generic); no ghost/MPI transfers; convergence rates outside.',
+                ref='3/C09'),
 }
 NA_REASON = {}
 
